@@ -47,6 +47,8 @@ MENU = [
     ('newline', 'start: line+\nline: A+ _NL\nA: "a"\n_NL: /\\n+/\n%ignore " "\n', 'a\n ', {}, None),
     ('qrule-placeholder', 'start: a [B] c?\n?a: A | "(" start ")"\n!c: "c" "!"?\nA: "a"\nB: "b"\n', 'ab()c!', {}, None),
     ('big-130', big_grammar(130), 'abcd', {}, None),
+    ('g-regex-flags', kw_grammar('', ''), 'abAB ', {'g_regex_flags': 2}, None),       # re.IGNORECASE as a global flag
+    ('declare-postlex', 'start: (A | _X)+\nA: "a"\n%declare _X\n%ignore " "\n', 'a ', {}, None),
 ]
 for _s in ('', 'i'):
     for _r in ('', 'i', 's', 'x', 'is'):
@@ -126,6 +128,8 @@ def derive(direct, gtext, opts, scratch, tag):
             kw['use_bytes'] = True
         if opts.get('propagate_positions'):
             kw['propagate_positions'] = True
+        if opts.get('g_regex_flags'):
+            kw['g_regex_flags'] = opts['g_regex_flags']
         out['standalone'] = ns['Lark_StandAlone'](**kw)
     except Exception as e:
         out['standalone'] = e
